@@ -89,3 +89,57 @@ Definition c11a_check (s : sexp) : sexp :=
     end
   | _ => SL [SA "undecodable"]
   end.
+
+(* Entry point c10t: a typed container and a history of operations (Conv/Typed.v).
+   input  ((slice TY n) | (map KT ET) | (struct (name TY) ...))  (op ...)
+   ops    (store i V) (read i) (append V) (mstore K V) (mread K) (mdel K) (fstore name V) (fread name)
+   output one observation per operation: (E) (nil) (v proj) (m typename (kproj vproj) ...) *)
+From Anko Require Import Conv.Typed.
+
+Definition dec_field (s : sexp) : option (string * ty * tval) :=
+  match s with
+  | SL [SA n; t] => match dec_ty 6 t with Some t => Some (n, t, zero t) | None => None end
+  | _ => None
+  end.
+
+Definition dec_cont (s : sexp) : option tcont :=
+  match s with
+  | SL [SA "slice"; t; n] => match dec_ty 6 t, as_nat n with Some t, Some n => Some (KSlice t (repeat (zero t) n)) | _, _ => None end
+  | SL [SA "map"; k; e] => match dec_ty 6 k, dec_ty 6 e with Some k, Some e => Some (KMap k e []) | _, _ => None end
+  | SL (SA "struct" :: fs) => option_map KStruct (Sexp.map_opt dec_field fs)
+  | _ => None
+  end.
+
+Definition dec_top (s : sexp) : option top :=
+  let V x := dec_sval (S (sdepth x)) x in
+  match s with
+  | SL [SA "store"; i; v] => match as_Z i, V v with Some i, Some v => Some (OStore i v) | _, _ => None end
+  | SL [SA "read"; i] => option_map ORead (as_Z i)
+  | SL [SA "append"; v] => option_map OAppend (V v)
+  | SL [SA "mstore"; k; v] => match V k, V v with Some k, Some v => Some (OMapStore k v) | _, _ => None end
+  | SL [SA "mread"; k] => option_map OMapRead (V k)
+  | SL [SA "mdel"; k] => option_map OMapDelete (V k)
+  | SL [SA "fstore"; SA f; v] => option_map (OFieldStore f) (V v)
+  | SL [SA "fread"; SA f] => Some (OFieldRead f)
+  | _ => None
+  end.
+
+Definition enc_obs (x : obs) : sexp :=
+  match x with
+  | XErr => SL [SA "E"]
+  | XNil => SL [SA "nil"]
+  | XVal v => SL [SA "v"; SA (proj_t v)]
+  | XCont (KSlice e l) => SL [SA "v"; SA (proj_t (VSlice e l))]
+  | XCont (KMap k e m) => SL (SA "m" :: SA ("map[" ++ ty_name k ++ "]" ++ ty_name e) :: map (fun kv => SL [SA (proj_t (fst kv)); SA (proj_t (snd kv))]) m)
+  | XCont (KStruct _) => SL [SA "struct"]
+  end.
+
+Definition c10t_check (s : sexp) : sexp :=
+  match s with
+  | SL [c; SL ops] =>
+    match dec_cont c, Sexp.map_opt dec_top ops with
+    | Some c, Some ops => SL (map enc_obs (snd (trun c ops)))
+    | _, _ => SL [SA "undecodable"]
+    end
+  | _ => SL [SA "undecodable"]
+  end.
